@@ -525,6 +525,9 @@ fn check_equal(
         },
         if differs && !listed { ", divergent_buckets empty" } else { "" }
     );
+    if out.iter().any(|v| v.sig == sig) {
+        return;
+    }
     out.push(Viol {
         sig,
         detail: format!(
@@ -605,8 +608,12 @@ fn check_unequal(
     } else {
         diff_keys.iter().filter(|(k, _)| unlisted.contains(&k)).flat_map(|(_, c)| c.iter().copied()).collect::<Vec<_>>()
     });
+    let sig = format!("digest false in-sync: states differ in {class} yet {problem}");
+    if out.iter().any(|v| v.sig == sig) {
+        return;
+    }
     out.push(Viol {
-        sig: format!("digest false in-sync: states differ in {class} yet {problem}"),
+        sig,
         detail: format!(
             "{} merkle depth {}: A = {} (iterates {}) ; B = {} (iterates {}) ; differing keys {:?} ; differs_from={}/{} divergent_buckets={:?}/{:?}",
             context,
@@ -692,7 +699,7 @@ fn build_pool(
     let mut reference: Option<Inst> = None;
     let mut built = 0usize;
     let mut rounds = 0usize;
-    let mut reported: BTreeSet<String> = BTreeSet::new();
+    let mut mine: Vec<Viol> = Vec::new();
     let intended: BTreeMap<String, String> = content.iter().map(|(k, v)| (k.clone(), canon_value(v))).collect();
     cov.contents += 1;
     if want > 1 {
@@ -733,13 +740,7 @@ fn build_pool(
                     }
                     Some(r) => {
                         cov.eq_comparisons += 1;
-                        let mut local = Vec::new();
-                        check_equal(depth, content, content, r, &inst, context, recipes, &mut local);
-                        for v in local {
-                            if reported.insert(v.sig.clone()) {
-                                out.push(v);
-                            }
-                        }
+                        check_equal(depth, content, content, r, &inst, context, recipes, &mut mine);
                     }
                 }
                 pool.entry(inst.order.clone()).or_insert(inst);
@@ -753,6 +754,7 @@ fn build_pool(
             break;
         }
     }
+    out.extend(mine);
     cov.max_attempts_used = cov.max_attempts_used.max(built as u64);
     if pool.len() < want {
         cov.pools_incomplete += 1;
@@ -1114,6 +1116,26 @@ fn run_once(cfg: &SyncCfg, ha: &[WOp], hb: &[WOp], limit: usize) -> Result<Once,
             }
         }
     }
+    // replay only: how does the pair look after many more rounds (informational)
+    let extra = EXTRA_ROUNDS.load(std::sync::atomic::Ordering::Relaxed);
+    let mut later = String::new();
+    if rounds.is_none() && extra > 0 {
+        let snapshot = (canon_state(&sim.nodes[0].replica_state.replicated_keys), canon_state(&sim.nodes[1].replica_state.replicated_keys));
+        let mut sim2_round = None;
+        for r in 1..=extra {
+            sim.run_anti_entropy_sync(0, 1);
+            let (da, db) = (sim.nodes[0].generate_digest(), sim.nodes[1].generate_digest());
+            if !da.differs_from(&db) {
+                sim2_round = Some(max_rounds + r);
+                break;
+            }
+        }
+        later = match sim2_round {
+            Some(r) => format!(" [replay: digests agree only after {r} rounds]"),
+            None => format!(" [replay: digests still differ after {} further rounds]", extra),
+        };
+        let _ = snapshot;
+    }
     let fa = &sim.nodes[0].replica_state.replicated_keys;
     let fb = &sim.nodes[1].replica_state.replicated_keys;
     let fin = (order_sig(fa, cfg.depth), order_sig(fb, cfg.depth));
@@ -1209,11 +1231,17 @@ fn run_once(cfg: &SyncCfg, ha: &[WOp], hb: &[WOp], limit: usize) -> Result<Once,
             }
         }
     }
+    if !later.is_empty() {
+        for c in causes.iter_mut() {
+            c.1.push_str(&later);
+        }
+    }
     let final_states_equal = sa == sb;
     Ok(Once { init, fin, rounds, initially_divergent, final_states_equal, causes })
 }
 
 const SYNC_MAX_ATTEMPTS: usize = 3000;
+static EXTRA_ROUNDS: std::sync::atomic::AtomicUsize = std::sync::atomic::AtomicUsize::new(0);
 const SYNC_MIN_ATTEMPTS: usize = 4;
 
 struct ScenResult {
@@ -1420,6 +1448,7 @@ fn replay(r: &Value) -> ! {
         };
         let (ha, hb) = (wop_from_json(&r["ha"]), wop_from_json(&r["hb"]));
         let limit = r["limit"].as_u64().unwrap_or(1000) as usize;
+        EXTRA_ROUNDS.store(100, std::sync::atomic::Ordering::Relaxed);
         let res = run_scenario(&cfg, &ha, &hb, limit);
         println!(
             "scenario repeated {} times on fresh nodes (initial order combinations {}, final {} ; all covered: {}); rounds until digests agree: {:?}",
@@ -1566,6 +1595,14 @@ fn main() {
     let part = args.flag("--part").map(|s| s.to_string());
     if part.as_deref() == Some("sync") {
         items.clear();
+    }
+    if let Some(sw) = args.flag("--sweep") {
+        // development aid: restrict the digest part to one sweep (the run is then not exhaustive)
+        items.retain(|it| match it.sweep {
+            Sweep::Equal { .. } => sw == "equal",
+            Sweep::Unequal { .. } => sw == "unequal",
+            Sweep::MergeOrder { .. } => sw == "merge",
+        });
     }
     let t0 = rep.elapsed_s();
     let results = par::par_map(&items, |_, it| {
@@ -1717,7 +1754,7 @@ fn main() {
     }
 
     let evaluations = cov.eq_comparisons + cov.neq_comparisons + sync_runs;
-    let exhaustive = cov.pools_incomplete == 0 && uncovered == 0 && part.is_none();
+    let exhaustive = cov.pools_incomplete == 0 && uncovered == 0 && part.is_none() && args.flag("--sweep").is_none();
     let mut samples: Vec<Value> = vec![
         json!({"part": "digest/equal", "depth": 0, "content": "k0: lww 'a'@1.r1 ts=1.r1; k1: lww 'b'@1.r2 ts=1.r2",
                "built": "8 construction kinds x 2 insertion orders, repeated until both iteration orders [k0,k1] and [k1,k0] were observed",
